@@ -177,7 +177,7 @@ def gen_special(rng, k):
     bypp = bpp // 8
     W, H = rng.choice([1, 8, 16, 17, 40, 65]), rng.choice([1, 8, 16, 17, 40])
     which = rng.choice(["ultrazip", "ultrazip", "tight_rows", "tight_nozlib", "tight_pal", "tight_wide", "trle_rle", "zrle_short",
-                        "zrle_types", "corre_count", "rre_count", "hextile_sub", "resize", "cursor", "lengths", "raw_big", "copy_oob",
+                        "zrle_types", "zrle_exact", "corre_count", "rre_count", "hextile_sub", "resize", "cursor", "lengths", "raw_big", "copy_oob",
                         "cursor_trunc", "cursor_trunc", "trunc_large", "trunc_large"])
     L = ["case %d special:%s %s %dx%d" % (k, which, fmtname, W, H)]
     tags = ["special." + which]
@@ -185,6 +185,9 @@ def gen_special(rng, k):
     hdr = lambda x, y, w, h, enc: be16(x) + be16(y) + be16(w) + be16(h) + be32(enc)
     if which == "tight_wide":
         W, H = rng.choice([2048, 2049, 2100, 4096, 4097]), rng.choice([1, 2])
+        L[0] = "case %d special:%s %s %dx%d" % (k, which, fmtname, W, H)
+    if which == "zrle_exact":
+        W, H = 64 + rng.randint(1, 8), 1
         L[0] = "case %d special:%s %s %dx%d" % (k, which, fmtname, W, H)
     if which == "tight_nozlib":
         W, H = rng.choice([(40, 40), (400, 300), (640, 480)])
@@ -254,6 +257,18 @@ def gen_special(rng, k):
         t = rng.choice([2, 16, 17, 100, 127, 128, 129, 130, 255])
         data = "%02x" % t + rb(rng.choice([0, 10, 200, 600, 2000]))
         L += ["b 00000001", "b " + hdr(0, 0, w, h, 16), "z 0 1 1 " + data]
+    elif which == "zrle_exact":
+        # the decompressed data fills the scratch area (2 x raw size of the rectangle) to the last byte and the last
+        # tile ends exactly there: reads of whole machine words for the final CPIXEL / run length leave the block
+        cpx = {1: 1, 2: 2, 4: 3 if fmtname in ("rgb888", "bgr888", "rgb888up") else 4}[bypp]
+        e = W - 64
+        cap = 2 * cpx * W + rng.choice([0, 0, 0, -1, 1, 4])
+        t2 = rng.choice(["00" + rb(cpx * e), "01" + rb(cpx), "80" + rb(cpx) + "%02x" % (e - 1)])
+        room = cap - len(t2) // 2 - (1 + cpx + 1)
+        r = max(0, min(63, room // (cpx + 1)))
+        kk = max(0, room - r * (cpx + 1))
+        t1 = "80" + (rb(cpx) + "00") * r + rb(cpx) + "ff" * kk + "00"
+        L += ["b 00000001", "b " + hdr(0, 0, W, H, 16), "z 0 1 1 " + t1 + t2]
     elif which == "corre_count":
         n = rng.choice([0, 1, 38399, 38400, 38401, 51200, 51201, 61440, 61441, 0xffffffff])
         L += ["b 00000001", "b " + hdr(0, 0, W, H, 4) + be32(n) + rb(bypp) + rb(min(n, 70000) * (4 + bypp) if n < 100000 else 64)]
